@@ -88,4 +88,11 @@ var metas = map[string]*meta{
 		Rule: "every history of ≤3 (quick) / ≤4 (thorough) operations over {add m1, add m2 (same hash directory), mark-seen, remove oldest, remove newest/last remaining, purge} × cap∈{0,1,2} is executed on the real file store under strace; the syscall log (openat/write/close/mkdirat/unlinkat/renameat…, op boundaries marked by readlink calls) is parsed into file-system effects, and for the LAST operation of each history (every prefix of a history is itself a history) one directory image is materialised per crash state: before the first effect, after every effect, after every byte prefix of every write to an index file (raw bodies ≤256 B byte-exact, larger ones at 0/1/mid/len-1 and 4 KiB boundaries), and after every subset of a run of sibling unlinks of one RemoveAll walk. Each image is recovered with a fresh real file.Store: visit and listings succeed, untouched mailboxes identical, the touched mailbox equals the state before or after the operation (or a cap-eviction prefix), every listed message readable, and the mailbox accepts new mail. Non-trivial = a history whose last operation had file-system effects; distinct histories.",
 		Assumptions: []string{"process death: the persistent state is the effect of a prefix of the issued syscalls, the one in flight possibly partial (no power-loss reordering; the store never fsyncs)", "strace reports the store's syscalls faithfully; unknown mutating syscalls make the check fail loudly", "readdir order inside RemoveAll is arbitrary: all subsets of a sibling-unlink run are crash states"},
 	},
+	"C09": {
+		ID: "C09", Level: "model_checking",
+		Parts: []part{{Name: "sched", Bin: "sched", Shards: 16}, {Name: "race", Bin: "race", Shards: 2}},
+		Primary: "sched",
+		Rule: "stateless depth-first exploration of ALL schedules (iterative preemption bounding; multi-ready selects are extra choice points) of 11 scenarios of 2–3 client goroutines × 1–2 operations on the REAL mem/file stores plus the stores' own background goroutines (size enforcer), under a controlled scheduler built on testing/synctest with every sync/channel/go site of inbucket instrumented from the working tree at check time: mem+maxkb add∥remove∥add, add∥purge, cap+maxkb add∥add∥add, add∥list/get∥seen/remove, add∥add∥visitor-that-removes; file add∥remove∥list, same-bucket add∥add∥purge, cap add∥add∥list, visit∥remove-last-message, add∥get-latest∥remove. Oracle per schedule: every client finishes (else deadlock), no goroutine panics, the call/return history (scheduler-step intervals) plus a final listing is linearizable w.r.t. the store model (porcupine), no duplicate ids, byte limit respected. Every schedule is distinct and non-trivial.",
+		Assumptions: []string{"code between two scheduling points (lock acquire, channel operation, select, go, WaitGroup.Wait) is atomic: sound for data-race-free code; races are looked for separately by the free-running -race pass (sampling, reported as race_pass)", "testing/synctest's durably-blocked notion; two small runtime patches (deterministic select choice, map iteration start) applied through -overlay", "size-limit eviction is not atomic with the add that triggers it; in linearizability scenarios the limit is large enough that nothing is evicted"},
+	},
 }
